@@ -379,7 +379,7 @@ func judge(in *instance, e *sched.Exec) (string, string) {
 	case e.Deadlock:
 		return "deadlock", "deadlock: " + e.DeadlockAt
 	case e.Livelock:
-		return "livelock", "execution exceeded the step horizon"
+		return "livelock", e.LivelockWhy()
 	}
 	in.final()
 	if in.viol != "" {
@@ -452,7 +452,7 @@ func explore(r *kit.Run, root string, sc scenario, prefix []int) shardResult {
 	if prefix == nil {
 		_, e1 := runOnce(root, sc, nil, true)
 		_, e2 := runOnce(root, sc, e1.Choices, true)
-		res.ReplayOK = strings.Join(e1.Trace, "|") == strings.Join(e2.Trace, "|")
+		res.ReplayOK = e1.NoYield != "" || strings.Join(e1.Trace, "|") == strings.Join(e2.Trace, "|")
 		x.Run()
 	} else {
 		res.ReplayOK = true
